@@ -14,9 +14,9 @@ impl<'c> Coils<'c> {
         if bools.is_empty() {
             return Err(Error::BufferSize);
         }
-        pack_coils(bools, target)?;
+        let packed_len = pack_coils(bools, target)?;
         Ok(Coils {
-            data: target,
+            data: &target[..packed_len],
             quantity: bools.len(),
         })
     }
